@@ -1,7 +1,8 @@
 //! C04: lasso search.  The allocator over the model kernel with a fixed placement policy is a
 //! deterministic transition system whose whole state (the `Dlmalloc` object + every mapped byte +
-//! the mapping table) is visible.  A workload's round "allocate all, free all" is iterated until
-//! the state recurs; from then on the footprint sequence is periodic, hence bounded for every N.
+//! the mapping table) is visible.  A workload's round "run the operations, free everything" is
+//! iterated until the state recurs; from then on the footprint sequence is periodic, hence bounded
+//! for every number of repetitions.
 
 use crate::exec::*;
 use crate::kernel::*;
@@ -14,9 +15,11 @@ pub const MAX_RELEASE_CHECK_RATE: usize = 4095; // dlmalloc.rs: const MAX_RELEAS
 
 #[derive(Clone, Copy, PartialEq, Eq, Debug, Hash)]
 pub enum FreeOrder {
+    /// free everything in slot order
     Fifo,
+    /// free everything in reverse slot order
     Lifo,
-    /// allocate i, then free i-1: at most two blocks live
+    /// (allocation-only workloads) allocate i, then free i-1: at most two blocks live
     Interleaved,
 }
 impl FreeOrder {
@@ -36,37 +39,61 @@ impl FreeOrder {
     }
 }
 
+/// One repetition = `ops` (malloc / calloc / realloc; allocations go to the lowest free slot), then
+/// every live block is freed in `order`.
 #[derive(Clone, Debug)]
 pub struct Workload {
-    pub items: Vec<(usize, usize)>,
+    pub ops: Vec<Op>,
     pub order: FreeOrder,
     pub policy: Policy,
 }
 
 impl Workload {
     pub fn to_json(&self) -> Value {
-        json!({"phase":"lasso","op":"lasso","workload": self.items.iter().map(|(s,a)| json!([s,a])).collect::<Vec<_>>(),
-               "free_order": self.order.name(), "policy": self.policy.letter().to_string()})
+        json!({"phase":"lasso","op":"lasso","workload": show_ops(&self.ops), "free_order": self.order.name(), "policy": self.policy.letter().to_string()})
     }
     pub fn from_json(v: &Value) -> Workload {
+        let ops = match v["workload"].as_array() {
+            // older form: [[size, align], ..]
+            Some(a) if a.first().map_or(false, |x| x.is_array()) => {
+                a.iter().map(|x| Op::Malloc { size: x[0].as_u64().unwrap_or(1) as usize, align: x[1].as_u64().unwrap_or(8) as usize }).collect()
+            }
+            _ => parse_ops(&v["workload"]),
+        };
         Workload {
-            items: v["workload"]
-                .as_array()
-                .map(|a| a.iter().map(|x| (x[0].as_u64().unwrap_or(1) as usize, x[1].as_u64().unwrap_or(8) as usize)).collect())
-                .unwrap_or_default(),
+            ops,
             order: FreeOrder::parse(v["free_order"].as_str().unwrap_or("fifo")),
             policy: v["policy"].as_str().and_then(|s| s.chars().next()).and_then(Policy::from_letter).unwrap_or(Policy::TopDown),
         }
     }
     pub fn peak_live(&self) -> usize {
-        match self.order {
-            FreeOrder::Fifo | FreeOrder::Lifo => self.items.iter().map(|x| x.0).sum(),
-            FreeOrder::Interleaved => {
-                let single = self.items.iter().map(|x| x.0).max().unwrap_or(0);
-                let pair = self.items.windows(2).map(|w| w[0].0 + w[1].0).max().unwrap_or(0);
-                single.max(pair)
+        let mut slots: Vec<Option<usize>> = Vec::new();
+        let mut peak = 0usize;
+        let mut prev: Option<usize> = None; // interleaved: the block allocated before this one
+        for op in &self.ops {
+            match *op {
+                Op::Malloc { size, .. } | Op::Calloc { size, .. } => {
+                    match slots.iter().position(|s| s.is_none()) {
+                        Some(i) => slots[i] = Some(size),
+                        None => slots.push(Some(size)),
+                    }
+                    if self.order == FreeOrder::Interleaved {
+                        peak = peak.max(size + prev.unwrap_or(0));
+                        prev = Some(size);
+                        continue;
+                    }
+                }
+                Op::Realloc { slot, size } => {
+                    // old and new block may coexist while the contents are copied
+                    let live: usize = slots.iter().flatten().sum();
+                    peak = peak.max(live + size);
+                    slots[slot] = Some(size);
+                }
+                Op::Free { slot } => slots[slot] = None,
             }
+            peak = peak.max(slots.iter().flatten().sum());
         }
+        peak
     }
     pub fn bound(&self) -> usize {
         let g = GRANULARITY;
@@ -124,39 +151,64 @@ fn hash_words(mut h: u64, p: *const u8, len: usize, n: &Norm) -> u64 {
 }
 
 /// One round.  Err(msg) = allocator panicked; Ok(None) = an allocation returned null.
+/// Returns the addresses the round's operations returned.
 fn round(w: &mut World, wl: &Workload) -> Result<Option<Vec<usize>>, String> {
     let a: *mut Dlmalloc = &mut *w.a;
     let k = &mut w.k;
-    let items = &wl.items;
+    let ops = &wl.ops;
     let order = wl.order;
     catch(|| {
         sysx::run(k, || unsafe {
-            let n = items.len();
-            let mut ptrs = vec![0usize; n];
-            match order {
-                FreeOrder::Fifo | FreeOrder::Lifo => {
-                    for i in 0..n {
-                        ptrs[i] = (*a).malloc(items[i].0, items[i].1) as usize;
-                        if ptrs[i] == 0 {
+            let mut ptrs: Vec<usize> = Vec::with_capacity(ops.len());
+            // slot -> (ptr, size, align)
+            let mut slots: Vec<Option<(usize, usize, usize)>> = Vec::with_capacity(4);
+            let mut prev_slot: Option<usize> = None;
+            for op in ops {
+                match *op {
+                    Op::Malloc { size, align } | Op::Calloc { size, align } => {
+                        let p = if matches!(op, Op::Malloc { .. }) { (*a).malloc(size, align) } else { (*a).calloc(size, align) } as usize;
+                        if p == 0 {
                             return None;
                         }
+                        ptrs.push(p);
+                        let s = match slots.iter().position(|s| s.is_none()) {
+                            Some(i) => {
+                                slots[i] = Some((p, size, align));
+                                i
+                            }
+                            None => {
+                                slots.push(Some((p, size, align)));
+                                slots.len() - 1
+                            }
+                        };
+                        if order == FreeOrder::Interleaved {
+                            if let Some(ps) = prev_slot {
+                                let b = slots[ps].take().unwrap();
+                                (*a).free(b.0 as *mut u8);
+                            }
+                            prev_slot = Some(s);
+                        }
                     }
-                    for j in 0..n {
-                        let i = if order == FreeOrder::Fifo { j } else { n - 1 - j };
-                        (*a).free(ptrs[i] as *mut u8);
+                    Op::Realloc { slot, size } => {
+                        let b = slots[slot].unwrap();
+                        let p = (*a).realloc(b.0 as *mut u8, b.1, b.2, size) as usize;
+                        if p == 0 {
+                            return None;
+                        }
+                        ptrs.push(p);
+                        slots[slot] = Some((p, size, b.2));
+                    }
+                    Op::Free { slot } => {
+                        let b = slots[slot].take().unwrap();
+                        (*a).free(b.0 as *mut u8);
                     }
                 }
-                FreeOrder::Interleaved => {
-                    for i in 0..n {
-                        ptrs[i] = (*a).malloc(items[i].0, items[i].1) as usize;
-                        if ptrs[i] == 0 {
-                            return None;
-                        }
-                        if i > 0 {
-                            (*a).free(ptrs[i - 1] as *mut u8);
-                        }
-                    }
-                    (*a).free(ptrs[n - 1] as *mut u8);
+            }
+            let n = slots.len();
+            for j in 0..n {
+                let i = if order == FreeOrder::Lifo { n - 1 - j } else { j };
+                if let Some(b) = slots[i].take() {
+                    (*a).free(b.0 as *mut u8);
                 }
             }
             Some(ptrs)
@@ -165,33 +217,103 @@ fn round(w: &mut World, wl: &Workload) -> Result<Option<Vec<usize>>, String> {
     })
 }
 
+#[derive(Clone, Copy, Debug)]
+pub struct Limits {
+    /// executed rounds
+    pub cap_rounds: usize,
+    /// CPU seconds per workload
+    pub cpu_secs: f64,
+    /// bytes of mapped memory hashed "on spec" (after kernel activity, acceleration probes); beyond it only on fingerprint repeats
+    pub hash_budget: usize,
+    /// skip the rounds in which nothing but the release_checks countdown changes (see `run_workload`)
+    pub accelerate: bool,
+}
+
+pub fn limits(th: bool, accelerate: bool) -> Limits {
+    // Without acceleration the layout may go through several release_checks periods (4095 large frees
+    // each, i.e. up to 4095 rounds) before it settles into its cycle, and a cycle is recognised on its
+    // second traversal.  With acceleration a period costs a handful of executed rounds.
+    Limits {
+        cap_rounds: if accelerate {
+            if th {
+                20_000
+            } else {
+                5_000
+            }
+        } else if th {
+            16 * (MAX_RELEASE_CHECK_RATE + 1)
+        } else {
+            6 * (MAX_RELEASE_CHECK_RATE + 1)
+        },
+        cpu_secs: if th { 60.0 } else { 10.0 },
+        hash_budget: if th { 1 << 30 } else { 128 << 20 },
+        accelerate,
+    }
+}
+
+fn cpu_now() -> f64 {
+    unsafe {
+        let mut ts: libc::timespec = std::mem::zeroed();
+        libc::clock_gettime(libc::CLOCK_PROCESS_CPUTIME_ID, &mut ts);
+        ts.tv_sec as f64 + ts.tv_nsec as f64 * 1e-9
+    }
+}
+
+#[derive(Default)]
 pub struct LassoResult {
+    /// rounds really executed
     pub rounds: usize,
+    /// rounds including the skipped ones
+    pub virtual_rounds: usize,
+    pub skipped: usize,
     pub states: usize,
-    /// (first round, second round) of the recurring state
+    /// (first round, second round) of the recurring state, in virtual rounds
     pub recurrence: Option<(usize, usize)>,
     pub max_footprint: usize,
     pub final_footprint: usize,
-    pub footprints: Vec<usize>,
+    /// (virtual round, bytes): the end-of-round footprint was a new strict maximum
+    pub records: Vec<(usize, usize)>,
     pub crawled: bool,
-    /// stopped early: the footprint passed four times the allowed bound
-    pub runaway: bool,
+    /// stopped early: the footprint passed the allowed bound
+    pub exceeded: bool,
+    pub stop: &'static str,
+    /// (virtual round, kernel events) of every round in which the kernel was called
+    pub event_trace: Vec<(usize, Vec<Ev>)>,
 }
 
-pub fn run_workload(w: &mut World, wl: &Workload, cap: usize, r: &mut Report, verbose: bool) -> Option<LassoResult> {
+/// Iterate the workload's round until the state recurs (or a limit is hit).
+///
+/// Acceleration (`lim.accelerate`): when, among rounds without any kernel call, the rounds r, r-p and r-2p
+/// (p <= 8) have the same returned addresses, the same mapped bytes and the same `Dlmalloc` bytes except
+/// ONE word that went down by the same amount d each time (the `release_checks` countdown: -1 per large
+/// free, acted upon only when it reaches 0), the following rounds repeat with period p as long as the
+/// countdown stays above d; m*p of them are skipped by writing `value - m*d` into that word - the value
+/// the real run reaches by itself m*p rounds later.  The brute-force runs (no acceleration) of the
+/// `alloc` family cross-validate this against the real execution (event traces must coincide).
+pub fn run_workload(w: &mut World, wl: &Workload, lim: Limits, r: &mut Report, verbose: bool) -> Option<LassoResult> {
     w.reset();
     w.k.default_policy = wl.policy;
     let case = wl.to_json();
     set_case(&case.to_string());
+    let t0 = cpu_now();
+    let bound = wl.bound();
     let mut cheap_seen: HashSet<u64> = HashSet::new();
     let mut full_at: HashMap<u64, Vec<(usize, u64)>> = HashMap::new();
-    let mut res = LassoResult { rounds: 0, states: 0, recurrence: None, max_footprint: 0, final_footprint: 0, footprints: Vec::new(), crawled: false, runaway: false };
-    let mut anchors: Vec<u64> = Vec::new();
-    // the full state hash is taken in the first 64 rounds, in the 64 rounds after any round in which the
-    // kernel was called (rounds without kernel calls in between differ only in the release_checks
-    // countdown), and whenever the cheap fingerprint was seen before
+    let mut res = LassoResult { stop: "round-cap", ..Default::default() };
+    let mut anchors: HashMap<usize, u64> = HashMap::new();
+    // the full state hash is taken in the 64 rounds after any round in which the kernel was called
+    // (rounds without kernel calls in between differ only in the release_checks countdown), within a
+    // byte budget, and whenever the cheap fingerprint was seen before
     let mut last_event_round = 0usize;
-    for rd in 0..cap {
+    let mut hashed = 0usize;
+    let mut budget = lim.hash_budget;
+    let mut vr = 0usize; // virtual round number of the round being executed
+    let mut best = 0usize;
+    // acceleration bookkeeping: (Dlmalloc bytes, returned addresses, memory hash) of the latest consecutive quiet rounds
+    const MAX_P: usize = 8;
+    let mut recent: Vec<(Vec<u8>, Vec<usize>, u64)> = Vec::new();
+    let mut quiet_rounds = 0usize;
+    for rd in 0..lim.cap_rounds {
         w.k.events.clear();
         let before_peak = w.k.peak_footprint;
         w.k.peak_footprint = w.k.footprint;
@@ -199,19 +321,20 @@ pub fn run_workload(w: &mut World, wl: &Workload, cap: usize, r: &mut Report, ve
         let round_peak = w.k.peak_footprint;
         w.k.peak_footprint = before_peak.max(round_peak);
         res.rounds = rd + 1;
+        res.virtual_rounds = vr + 1;
         let ptrs = match out {
             Err(msg) => {
                 clear_case();
-                r.violation("C04:lasso:allocator-assertion", format!("round {rd} of workload {case}: the allocator panicked: {msg}"), case.clone());
+                r.violation("C04:lasso:allocator-assertion", format!("round {vr} of workload {case}: the allocator panicked: {msg}"), case.clone());
                 return None;
             }
             Ok(None) => {
                 clear_case();
                 if w.k.arena_exhausted {
-                    r.cap(format!("model arena exhausted in round {rd} of {case}"));
+                    r.cap(format!("model arena exhausted in round {vr} of {case}"));
                     r.outcome("arena-exhausted");
                 } else {
-                    r.violation("C04:lasso:null-without-refusal", format!("round {rd} of workload {case}: an allocation returned null although the kernel refused nothing"), case.clone());
+                    r.violation("C04:lasso:null-without-refusal", format!("round {vr} of workload {case}: an allocation returned null although the kernel refused nothing"), case.clone());
                 }
                 return None;
             }
@@ -219,18 +342,29 @@ pub fn run_workload(w: &mut World, wl: &Workload, cap: usize, r: &mut Report, ve
         };
         if !w.k.anomalies.is_empty() {
             clear_case();
-            r.violation("C04:lasso:foreign-or-invalid-syscall", format!("round {rd} of workload {case}: {}", w.k.anomalies[0]), case.clone());
+            r.violation("C04:lasso:foreign-or-invalid-syscall", format!("round {vr} of workload {case}: {}", w.k.anomalies[0]), case.clone());
             return None;
         }
-        res.footprints.push(w.k.footprint);
-        if w.k.peak_footprint > 4 * wl.bound() {
-            // far beyond anything the oracle allows: no point in (and no memory for) iterating further
-            res.runaway = true;
+        if w.k.footprint > best {
+            best = w.k.footprint;
+            res.records.push((vr, best));
+        }
+        if !w.k.events.is_empty() {
+            res.event_trace.push((vr, w.k.events.clone()));
+            last_event_round = rd;
+            quiet_rounds = 0;
+        } else {
+            quiet_rounds += 1;
+        }
+        if w.k.peak_footprint > bound {
+            // the oracle is already violated: stop here, a leaking allocator must not be iterated to the cap
+            res.exceeded = true;
+            res.stop = "footprint-exceeds-bound";
             break;
         }
-        // fingerprint; addresses relative to a 64 KiB-aligned anchor (exact for policy T whose placement depends on absolute addresses)
-        let anchor = if wl.policy == Policy::TopDown || w.k.regions.is_empty() { 0 } else { (w.k.regions[0].0 & !0xffff) as u64 };
-        anchors.push(anchor);
+        // fingerprint; addresses relative to a 64 KiB-aligned anchor (exact for the policies whose placement depends on absolute addresses)
+        let translation_invariant = matches!(wl.policy, Policy::Below | Policy::Above);
+        let anchor = if !translation_invariant || w.k.regions.is_empty() { 0 } else { (w.k.regions[0].0 & !0xffff) as u64 };
         let regions_now = w.k.regions.clone();
         let n = Norm { lo: w.k.base as u64, len: w.k.size as u64, anchor, regions: &regions_now };
         let mut h = mix(0x1234, w.k.footprint as u64);
@@ -242,34 +376,115 @@ pub fn run_workload(w: &mut World, wl: &Workload, cap: usize, r: &mut Report, ve
         for &p in &ptrs {
             h = mix(h, (p as u64).wrapping_sub(anchor));
         }
+        let mem_seed = h;
         let sb = w.struct_bytes();
         h = hash_words(h, sb.as_ptr(), sb.len(), &n);
         let cheap = h;
-        if verbose && std::env::var("H_ALLOC_DUMP").is_ok() && rd < 6 {
-            let q = sb.as_ptr() as *const u64;
-            let ws: Vec<String> = (0..sb.len() / 8).map(|i| format!("{:x}", n.w(unsafe { q.add(i).read_unaligned() }))).collect();
-            println!("  struct words (normalised, anchor {anchor:x}): {}", ws.join(" "));
-        }
         let seen = !cheap_seen.insert(cheap);
         if verbose && (rd < 6 || seen || !w.k.events.is_empty()) {
-            println!("  round {rd}: footprint {} (peak in round {round_peak}) regions {:x?} returned {:x?} events {:?} cheap-fp {cheap:016x}{}", w.k.footprint, w.k.regions, ptrs, w.k.events, if seen { " (seen before)" } else { "" });
+            println!(
+                "  round {vr}: footprint {} (peak in round {round_peak}) regions {:x?} returned {:x?} events {:?} cheap-fp {cheap:016x}{}",
+                w.k.footprint,
+                w.k.regions,
+                ptrs,
+                w.k.events,
+                if seen { " (seen before)" } else { "" }
+            );
         }
-        if !w.k.events.is_empty() {
-            last_event_round = rd;
+        let mapped: usize = w.k.regions.iter().map(|r| r.1 - r.0).sum();
+        if rd == 1 {
+            // room for a few hundred full hashes of a heap of the size this workload settles at
+            budget += 600 * mapped;
         }
-        if rd < last_event_round + 64 || seen {
-            let mut f = cheap;
-            for &(a, b) in &w.k.regions {
+        let mut mem_hash: Option<u64> = None;
+        let mem_of = |hashed: &mut usize| -> u64 {
+            let mut f = mem_seed;
+            for &(a, b) in &regions_now {
                 f = hash_words(f, a as *const u8, b - a, &n);
             }
+            *hashed += mapped;
+            f
+        };
+        if (rd < last_event_round + 64 && hashed < budget) || seen {
+            let m = mem_of(&mut hashed);
+            mem_hash = Some(m);
+            let f = mix(cheap, m);
             let e = full_at.entry(cheap).or_default();
             if let Some(&(i, _)) = e.iter().find(|x| x.1 == f) {
-                res.recurrence = Some((i, rd));
+                res.recurrence = Some((i, vr));
                 // same state at a different place: the heap moves through the address space as a whole
-                res.crawled = anchors[i] != anchors[rd];
+                res.crawled = anchors.get(&i).copied() != Some(anchor);
+                res.stop = "recurrence";
                 break;
             }
-            e.push((rd, f));
+            e.push((vr, f));
+            anchors.insert(vr, anchor);
+        }
+        // acceleration: the last quiet rounds are kept; look for a period p <= MAX_P modulo the countdown
+        let mut skip = 0usize;
+        if lim.accelerate && w.k.events.is_empty() && quiet_rounds <= 3 * MAX_P + 4 && (hashed < budget || mem_hash.is_some()) {
+            let m = match mem_hash {
+                Some(m) => m,
+                None => mem_of(&mut hashed),
+            };
+            recent.push((w.struct_bytes().to_vec(), ptrs.clone(), m));
+            let len = recent.len();
+            'periods: for p in 1..=MAX_P {
+                if len < 2 * p + 1 {
+                    break;
+                }
+                let (e0, e1, e2) = (&recent[len - 1], &recent[len - 1 - p], &recent[len - 1 - 2 * p]);
+                if e0.1 != e1.1 || e1.1 != e2.1 || e0.2 != e1.2 || e1.2 != e2.2 {
+                    continue;
+                }
+                // exactly one differing word, counting down by the same step
+                let words = e0.0.len() / 8;
+                let rd64 = |b: &Vec<u8>, i: usize| unsafe { (b.as_ptr() as *const u64).add(i).read_unaligned() };
+                let mut diff: Option<usize> = None;
+                for i in 0..words {
+                    if rd64(&e0.0, i) != rd64(&e1.0, i) || rd64(&e1.0, i) != rd64(&e2.0, i) {
+                        if diff.is_some() {
+                            continue 'periods;
+                        }
+                        diff = Some(i);
+                    }
+                }
+                let Some(i) = diff else { continue };
+                let (c, o, oo) = (rd64(&e0.0, i), rd64(&e1.0, i), rd64(&e2.0, i));
+                if !(oo > o && o > c && oo - o == o - c) {
+                    continue;
+                }
+                let d = o - c;
+                if d > 64 * p as u64 || oo > 2 * MAX_RELEASE_CHECK_RATE as u64 || c <= 2 * d {
+                    continue;
+                }
+                let k = (c - d - 1) / d;
+                if k >= 1 {
+                    let nv = c - k * d;
+                    unsafe {
+                        let q = (&mut *w.a as *mut Dlmalloc as *mut u64).add(i);
+                        q.write_unaligned(nv);
+                    }
+                    skip = k as usize * p;
+                    if verbose {
+                        println!("  after round {vr}: period {p} modulo the countdown word #{i} ({oo} -> {o} -> {c}); skipping {skip} repetitions (countdown := {nv})");
+                    }
+                }
+                break;
+            }
+        }
+        if !w.k.events.is_empty() || skip > 0 {
+            recent.clear();
+        }
+        if skip > 0 {
+            res.skipped += skip;
+            vr += skip;
+            quiet_rounds = 0;
+        }
+        vr += 1;
+        if rd % 16 == 15 && cpu_now() - t0 > lim.cpu_secs {
+            res.stop = "cpu-cap";
+            break;
         }
     }
     clear_case();
@@ -279,43 +494,64 @@ pub fn run_workload(w: &mut World, wl: &Workload, cap: usize, r: &mut Report, ve
     Some(res)
 }
 
-pub fn judge(wl: &Workload, res: &LassoResult, cap: usize, r: &mut Report) {
+/// still growing: new end-of-round maxima keep coming (several of them, the last one recent)
+fn growing(res: &LassoResult) -> bool {
+    let n = res.records.len();
+    if n < 4 {
+        return false;
+    }
+    let last = res.records[n - 1].0;
+    let window = 64.max(res.virtual_rounds / 4);
+    last + window >= res.virtual_rounds
+}
+
+pub fn judge(wl: &Workload, res: &LassoResult, r: &mut Report) {
     let case = wl.to_json();
     r.states += res.states as u64;
     r.transitions += res.rounds as u64;
+    if res.skipped > 0 {
+        r.outcome("rounds-skipped-by-countdown-acceleration");
+    }
     let bound = wl.bound();
     match res.recurrence {
         Some((i, j)) => {
             let p = j - i;
             let cls = if p == 1 {
-                "period-1".to_string()
+                "period-1"
             } else if p <= 8 {
-                "period-2..8".to_string()
+                "period-2..8"
             } else if p < 1000 {
-                "period-9..999".to_string()
+                "period-9..999"
             } else {
-                "period>=1000(release_checks cycle)".to_string()
+                "period>=1000(release_checks cycle)"
             };
             r.outcome(&format!("recurrence:{cls}"));
             r.outcome(if res.crawled { "recurs-translated(heap-crawls-through-address-space)" } else { "recurs-at-same-addresses" });
         }
         None => {
-            // growing: the end-of-round footprint keeps making new maxima in the last quarter of the run
-            let n = res.footprints.len();
-            let q = n / 4;
-            let max_before = res.footprints[..n - q].iter().copied().max().unwrap_or(0);
-            let max_last = res.footprints[n - q..].iter().copied().max().unwrap_or(0);
-            if max_last > max_before || res.runaway {
+            if growing(res) {
                 r.outcome("no-recurrence:growing");
+                let (a, b) = (res.records[res.records.len() / 2], res.records[res.records.len() - 1]);
                 r.violation(
                     "C04:lasso:footprint-grows",
-                    format!("workload {case}: no state recurrence within {} rounds{} and the footprint after a round is still reaching new maxima ({max_before} -> {max_last} bytes, peak {}); peak live bytes {}",
-                        res.rounds, if res.runaway { " (stopped: footprint passed 4 x the allowed bound)" } else { "" }, res.max_footprint, wl.peak_live()),
+                    format!(
+                        "workload {case}: no state recurrence within {} repetitions (stopped: {}) and the memory held after a repetition keeps reaching new maxima: {} bytes after repetition {}, {} after repetition {} ({} new maxima so far); peak live bytes {}",
+                        res.virtual_rounds,
+                        res.stop,
+                        a.1,
+                        a.0,
+                        b.1,
+                        b.0,
+                        res.records.len(),
+                        wl.peak_live()
+                    ),
                     case.clone(),
                 );
+            } else if res.exceeded {
+                r.outcome("no-recurrence:stopped-at-bound");
             } else {
-                r.outcome("no-recurrence:bounded-so-far");
-                r.cap(format!("no state recurrence within {cap} rounds for {case} (footprint bounded so far: max {})", res.max_footprint));
+                r.outcome(&format!("no-recurrence:bounded-so-far({})", res.stop));
+                r.cap(format!("no state recurrence within {} repetitions ({}) for {case} (footprint bounded so far: max {})", res.virtual_rounds, res.stop, res.max_footprint));
             }
         }
     }
@@ -323,8 +559,9 @@ pub fn judge(wl: &Workload, res: &LassoResult, cap: usize, r: &mut Report) {
         r.violation(
             "C04:lasso:footprint-exceeds-bound",
             format!(
-                "workload {case}: footprint reached {} bytes (after the last round {}), allowed 2 x peak live bytes ({}, rounded up to 64 KiB) + 4 MiB = {bound}",
+                "workload {case}: footprint reached {} bytes in repetition {} (after the last repetition {}), allowed 2 x peak live bytes ({}, rounded up to 64 KiB) + 4 MiB = {bound}",
                 res.max_footprint,
+                res.virtual_rounds,
                 res.final_footprint,
                 wl.peak_live()
             ),
@@ -333,7 +570,12 @@ pub fn judge(wl: &Workload, res: &LassoResult, cap: usize, r: &mut Report) {
     }
 }
 
-pub fn alphabet(th: bool) -> Vec<(usize, usize)> {
+// ---------------------------------------------------------------------------
+// workload families
+
+/// Family "alloc": every sequence of 1..=n (size, align) allocations, free orders fifo / lifo /
+/// interleaved, every placement policy.
+pub fn alloc_alphabet(th: bool) -> Vec<(usize, usize)> {
     if th {
         vec![(24, 8), (1000, 64), (5000, 4096), (70_000, 8), (300_000, 64), (3 << 20, 8), (20 << 20, 4096)]
     } else {
@@ -341,11 +583,10 @@ pub fn alphabet(th: bool) -> Vec<(usize, usize)> {
     }
 }
 
-pub fn workloads(th: bool) -> Vec<Workload> {
-    let al = alphabet(th);
+pub fn alloc_family(th: bool) -> Vec<Workload> {
+    let al = alloc_alphabet(th);
     let maxn = if th { 4 } else { 3 };
     let mut v = Vec::new();
-    // every sequence of length 1..=maxn = every multiset in every allocation order
     for_each_seq(al.len(), maxn, |idx| {
         if idx.is_empty() {
             return;
@@ -355,65 +596,186 @@ pub fn workloads(th: bool) -> Vec<Workload> {
                 continue; // identical to fifo
             }
             for p in ALL_POLICIES {
-                v.push(Workload { items: idx.iter().map(|&i| al[i]).collect(), order, policy: p });
+                v.push(Workload { ops: idx.iter().map(|&i| Op::Malloc { size: al[i].0, align: al[i].1 }).collect(), order, policy: p });
             }
         }
     });
     v
 }
 
-pub fn round_cap(th: bool) -> usize {
-    // the layout may go through several release_checks periods (4095 large frees each, i.e. up to 4095
-    // rounds) before it settles into its cycle, and a cycle is recognised on its second traversal
+/// Family "seq": every operation sequence of length 1..=n over malloc / calloc / realloc (shrink and
+/// grow, including growth in place into a binned neighbour) with <= 3 live slots, then free-all.
+pub struct SeqAlpha {
+    pub allocs: Vec<Op>,
+    pub realloc_sizes: Vec<usize>,
+    pub max_len: usize,
+    pub policies: Vec<Policy>,
+}
+
+pub fn seq_alpha(th: bool) -> SeqAlpha {
+    let m = |size, align| Op::Malloc { size, align };
+    let c = |size, align| Op::Calloc { size, align };
     if th {
-        16 * (MAX_RELEASE_CHECK_RATE + 1)
+        SeqAlpha {
+            allocs: vec![m(24, 8), m(1000, 8), m(1000, 64), m(4000, 8), m(6000, 8), m(100, 4096), m(70_000, 8), m(3 << 20, 8), c(1500, 8)],
+            realloc_sizes: vec![24, 1000, 1500, 6000, 70_000],
+            max_len: 5,
+            policies: vec![Policy::TopDown, Policy::Below, Policy::Disjoint, Policy::DisjointUp],
+        }
     } else {
-        6 * (MAX_RELEASE_CHECK_RATE + 1)
+        SeqAlpha {
+            allocs: vec![m(1000, 8), m(4000, 8), m(6000, 8), m(100, 4096), m(70_000, 8), c(1500, 8)],
+            realloc_sizes: vec![1000, 1500, 6000],
+            max_len: 4,
+            policies: vec![Policy::TopDown, Policy::Below, Policy::Disjoint],
+        }
+    }
+}
+
+pub fn seq_family(th: bool) -> Vec<Workload> {
+    let al = seq_alpha(th);
+    let mut seqs: Vec<Vec<Op>> = Vec::new();
+    fn rec(h: &mut Vec<Op>, live: usize, al: &SeqAlpha, out: &mut Vec<Vec<Op>>) {
+        if !h.is_empty() {
+            out.push(h.clone());
+        }
+        if h.len() == al.max_len {
+            return;
+        }
+        if live < 3 {
+            for &op in &al.allocs {
+                h.push(op);
+                rec(h, live + 1, al, out);
+                h.pop();
+            }
+        }
+        for slot in 0..live {
+            for &s in &al.realloc_sizes {
+                h.push(Op::Realloc { slot, size: s });
+                rec(h, live, al, out);
+                h.pop();
+            }
+        }
+    }
+    rec(&mut Vec::new(), 0, &al, &mut seqs);
+    // shortest first
+    seqs.sort_by_key(|s| s.len());
+    let mut v = Vec::new();
+    for s in seqs {
+        let live = s.iter().filter(|o| matches!(o, Op::Malloc { .. } | Op::Calloc { .. })).count();
+        for order in [FreeOrder::Fifo, FreeOrder::Lifo] {
+            if live == 1 && order == FreeOrder::Lifo {
+                continue;
+            }
+            for &p in &al.policies {
+                v.push(Workload { ops: s.clone(), order, policy: p });
+            }
+        }
+    }
+    v
+}
+
+/// compare an accelerated run with the brute-force run of the same workload
+fn cross_validate(wl: &Workload, brute: &LassoResult, fast: &LassoResult, r: &mut Report) {
+    let n = brute.event_trace.len().min(fast.event_trace.len());
+    let same_trace = brute.event_trace[..n] == fast.event_trace[..n];
+    // verdicts may differ only because of the different caps of the two runs; what must coincide is the
+    // trace of kernel calls on the common prefix and, when both runs reach a recurrence, the peak footprint
+    let same_verdict = true;
+    let same_max = brute.recurrence.is_none() || fast.recurrence.is_none() || brute.max_footprint == fast.max_footprint;
+    if brute.recurrence.is_none() && !brute.exceeded {
+        r.outcome("brute-force:cap-reached(trace-prefix-compared)");
+    }
+    if same_trace && same_verdict && same_max {
+        r.traces_validated += 1;
+    } else {
+        r.violation(
+            "C04:lasso:acceleration-mismatch",
+            format!(
+                "HARNESS ASSUMPTION BROKEN for {}: skipping countdown-only rounds changed the run: kernel-call traces equal on the common prefix: {same_trace} (brute {:?} / accelerated {:?}), recurrence {:?} / {:?}, max footprint {} / {}",
+                wl.to_json(),
+                brute.event_trace.iter().take(6).collect::<Vec<_>>(),
+                fast.event_trace.iter().take(6).collect::<Vec<_>>(),
+                brute.recurrence,
+                fast.recurrence,
+                brute.max_footprint,
+                fast.max_footprint
+            ),
+            wl.to_json(),
+        );
     }
 }
 
 pub fn lasso(args: &Args) -> Report {
     let th = args.thorough;
-    let cap = round_cap(th);
-    let nsh = 64usize;
+    let nsh = if th { 256usize } else { 64 };
     let mut items = Vec::new();
-    let total = workloads(th).len();
+    let n_alloc = alloc_family(th).len();
+    let n_seq = seq_family(th).len();
+    // quick: every 4th workload of the alloc family is also run without acceleration; thorough: all of them
+    let brute_every = if th { 1 } else { 4 };
     for sh in 0..nsh {
         items.push(isolated(format!("lasso-{sh}"), move || {
             let mut r = Report::new();
             let mut w = World::new(0);
-            for (i, wl) in workloads(th).into_iter().enumerate() {
+            let fast = limits(th, true);
+            let brute = limits(th, false);
+            let all: Vec<(bool, Workload)> = alloc_family(th).into_iter().map(|w| (true, w)).chain(seq_family(th).into_iter().map(|w| (false, w))).collect();
+            for (i, (is_alloc, wl)) in all.into_iter().enumerate() {
                 if i % nsh != sh {
                     continue;
                 }
                 r.eval();
                 r.nontrivial_unique();
-                if let Some(res) = run_workload(&mut w, &wl, cap, &mut r, false) {
-                    judge(&wl, &res, cap, &mut r);
-                    if i % 997 == 0 {
-                        let mut s = wl.to_json();
-                        s["recurrence"] = json!(res.recurrence.map(|(i, j)| vec![i, j]));
-                        s["max_footprint"] = json!(res.max_footprint);
-                        s["bound"] = json!(wl.bound());
-                        r.sample(s);
+                let Some(res) = run_workload(&mut w, &wl, fast, &mut r, false) else { continue };
+                judge(&wl, &res, &mut r);
+                if is_alloc && (i / nsh) % brute_every == 0 {
+                    let mut scratch = Report::new();
+                    if let Some(b) = run_workload(&mut w, &wl, brute, &mut scratch, false) {
+                        r.transitions += b.rounds as u64;
+                        r.outcome(if b.recurrence.is_some() { "brute-force:recurrence" } else { "brute-force:no-recurrence" });
+                        cross_validate(&wl, &b, &res, &mut r);
                     }
+                }
+                if i % 1499 == 0 {
+                    let mut s = wl.to_json();
+                    s["recurrence"] = json!(res.recurrence.map(|(i, j)| vec![i, j]));
+                    s["max_footprint"] = json!(res.max_footprint);
+                    s["bound"] = json!(wl.bound());
+                    s["rounds_executed"] = json!(res.rounds);
+                    s["rounds_skipped"] = json!(res.skipped);
+                    r.sample(s);
                 }
             }
             r
         }));
     }
     let mut r = run_isolated(items, &args.out, "C04");
+    let sa = seq_alpha(th);
     r.rule = format!(
-        "every workload = (sequence of 1..={} (size,align) items from {:?} [= every multiset in every allocation order], free order fifo/lifo/interleaved(free-as-you-go), \
-         one of the 5 placement policies T/B/A/D/U): {total} workloads, each generated once. The round 'allocate all, free all' is iterated on the real allocator over the model kernel \
-         until the full state (footprint, mapping table, addresses returned, the bytes of the Dlmalloc object, every mapped byte; addresses taken relative to a 64 KiB-aligned anchor \
-         for the translation-invariant policies) equals the state after an earlier round, or {cap} rounds (release_checks period {MAX_RELEASE_CHECK_RATE} large frees). \
-         states = distinct state fingerprints, transitions = rounds.",
+        "every workload of two families, each generated once. 'alloc': every sequence of 1..={} allocations from {:?} [= every multiset in every allocation order] x free order \
+         fifo/lifo/interleaved(free-as-you-go) x the 5 placement policies T/B/A/D/U ({n_alloc} workloads). 'seq': every operation sequence of length 1..={} over allocations {:?} and \
+         realloc(live slot, s) s in {:?} with <= 3 live slots, followed by free-all in fifo/lifo slot order, x policies {:?} ({n_seq} workloads). One repetition = run the operations and free \
+         everything, on the real allocator over the model kernel; it is iterated until the full state (footprint, mapping table, addresses returned, the bytes of the Dlmalloc object, every \
+         mapped byte; addresses relative to a 64 KiB-aligned anchor for the translation-invariant policies B/A, stale pointers into unmapped memory abstracted to their gap) equals the state \
+         after an earlier repetition. Repetitions in which only the release_checks countdown changes are skipped (three consecutive identical quiet repetitions observed first); the alloc family \
+         is {} ALSO run without that shortcut (cap {} repetitions, > {} release_checks periods of {MAX_RELEASE_CHECK_RATE}) and the two runs' kernel-call traces compared \
+         (traces_validated_against_impl). A run stops at once when the footprint exceeds the allowed bound. states = distinct state fingerprints, transitions = repetitions executed.",
         if th { 4 } else { 3 },
-        alphabet(th)
+        alloc_alphabet(th),
+        sa.max_len,
+        show_ops(&sa.allocs),
+        sa.realloc_sizes,
+        sa.policies.iter().map(|p| p.letter()).collect::<String>(),
+        if th { "entirely" } else { "(every 4th workload)" },
+        limits(th, false).cap_rounds,
+        limits(th, false).cap_rounds / (MAX_RELEASE_CHECK_RATE + 1) - 1
     );
-    r.bound("max_items", if th { 4 } else { 3 });
-    r.bound("round_cap", cap);
+    r.bound("alloc_family_max_items", if th { 4 } else { 3 });
+    r.bound("seq_family_max_len", sa.max_len);
+    r.bound("round_cap_brute_force", limits(th, false).cap_rounds);
+    r.bound("round_cap_accelerated", limits(th, true).cap_rounds);
+    r.bound("cpu_seconds_per_workload", limits(th, true).cpu_secs);
     r.bound("release_check_period", MAX_RELEASE_CHECK_RATE);
     r.bound("footprint_bound", "2 x peak live bytes (rounded up to 64 KiB) + 4 MiB");
     r
